@@ -55,6 +55,15 @@ Theorem C13_fat_chains : forall sizes npaths g t st,
 Proof. exact (fat_table_chains fat_fuel). Qed.
 Print Assumptions C13_fat_chains.
 
+(* the DIFAT the writer emits (109 header slots, then 127 slots and a next pointer per DIFAT sector): a reader that
+   collects the non-free slots of the header and follows the DIFAT chain finds exactly the FAT sectors
+   d, d+1, ..., d+f-1, in order, for every list of stream sizes *)
+Theorem C13_msat_read : forall sizes npaths g,
+  (forall s, In s sizes -> 0 <= s) -> 0 <= npaths -> locate sizes npaths = Some g ->
+  msat_read g = Some (seqZ (g_difat g) (Z.to_nat (g_fat g))).
+Proof. exact (msat_read_all fat_fuel). Qed.
+Print Assumptions C13_msat_read.
+
 (* the mini FAT: it fills exactly the mini FAT sectors of the layout, every stream below 4096 bytes is read back as
    consecutive mini sectors, pairwise disjoint, all inside the mini stream container the root entry describes *)
 Theorem C13_minifat_chains : forall sizes npaths g t st,
@@ -83,6 +92,23 @@ Theorem C13_stream_read_back : forall contents npaths g t st img mfb db cb j,
   = Some (nth j contents []).
 Proof. exact (big_stream_read_back fat_fuel). Qed.
 Print Assumptions C13_stream_read_back.
+
+(* writer and reader end to end for a stream below 4096 bytes (EncryptionInfo): its 64-byte mini sectors are laid out
+   by the mini FAT, the container holding all mini sectors is stored as the last FAT chain; a reader gets the
+   container back through the FAT (from the root entry's start sector) and the stream back through the mini FAT and
+   slices of the container - for every list of stream contents *)
+Theorem C13_mini_stream_read_back : forall contents npaths g t st mt mst img mfb db j,
+  let sizes := map (fun c : bytes => Z.of_nat (length c)) contents in
+  let mimg := put_streams 64 (fun _ => repeat 0 64) mst (map nmini sizes) contents in
+  let cb := container_bytes mimg (Z.to_nat (g_mini g)) in
+  0 <= npaths -> locate sizes npaths = Some g -> fat_table g sizes = (t, st) -> minifat_table sizes = (mt, mst) ->
+  (j < length contents)%nat -> 0 < Z.of_nat (length (nth j contents [])) < 4096 ->
+  read_stream (put_streams 512 img st (fat_lens g sizes) (mfb :: db :: contents ++ [cb])) t
+              (Z.to_nat ((g_mini g + 7) / 8)) (g_ministream_start g - 1) (length cb) = Some cb /\
+  read_mini cb mt (nmini (Z.of_nat (length (nth j contents [])))) (nth j mst FREE) (length (nth j contents []))
+  = Some (nth j contents []).
+Proof. exact (mini_stream_read_back fat_fuel). Qed.
+Print Assumptions C13_mini_stream_read_back.
 
 (* the same for any table and any block size (used with 64-byte mini sectors and the mini FAT): streams stored
    block after block at pairwise disjoint, ordered sector intervals are read back through their chains *)
